@@ -105,6 +105,22 @@ func init() {
 		}
 		return mkBool(map[bool]string{true: "true", false: "false"}[fv.Fn.RelString(sc.st.e.P.TPkg) == x.Args[1].Name])
 	}
+	// isBound(f, "(*T).m", recv): f is the method value recv.m
+	specFuncs["isBound"] = func(sc *SpecCtx, x *SExpr) Val {
+		f := sc.eval(x.Args[0])
+		if x.Args[1].Op != "str" {
+			sc.fail("isBound: second argument is a method name in quotes")
+		}
+		recv := sc.eval(x.Args[2])
+		fv := f.F
+		if fv == nil && len(f.C) == 1 {
+			fv = sc.st.funcs[f.C[0]]
+		}
+		if fv == nil || len(fv.Bindings) != 1 || fv.Fn.RelString(sc.st.e.P.TPkg) != x.Args[1].Name+"$bound" {
+			return mkBool("false")
+		}
+		return mkBool(eq(fv.Bindings[0].C[0], recv.C[0]))
+	}
 	specFuncs["sortInv"] = func(sc *SpecCtx, x *SExpr) Val {
 		if sc.st.lastSortInv == "" {
 			sc.fail("sortInv: no sort.Slice executed on this path")
